@@ -40,6 +40,12 @@ class Valuation:
           if a.kind == "abs" and len(a.args) == 1:
             term *= abs(self.value(a.args[0])) ** e
             continue
+          if a.kind in ("fdiv", "mod") and len(a.args) == 2:
+            x_, y_ = self.value(a.args[0]), self.value(a.args[1])
+            if x_.denominator != 1 or y_.denominator != 1 or y_ == 0:
+              raise Unknown("floor division outside the integers")
+            term *= Fraction(int(x_) // int(y_) if a.kind == "fdiv" else int(x_) % int(y_)) ** e
+            continue
           if a.kind == "bitlen" and len(a.args) == 1:
             inner = self.value(a.args[0])
             if inner.denominator != 1:
@@ -84,7 +90,8 @@ def leaf_atoms(p):
   """Top-level atoms of p with min / max / abs opened up (their operands are ordinary comparison operands)."""
   out = set()
   for a in as_poly(p).atoms():
-    if a.kind in ("min", "max", "abs", "bitlen") and all(isinstance(x, (Poly, Const)) for x in a.args) and (a.kind != "bitlen" or open_bitlen(a)):
+    if a.kind in ("min", "max", "abs", "bitlen", "fdiv", "mod") and all(isinstance(x, (Poly, Const)) for x in a.args) and (a.kind != "bitlen" or open_bitlen(a)) \
+       and (a.kind not in ("fdiv", "mod") or as_poly(a.args[1]).as_int() not in (None, 0)):
       for x in a.args:
         if isinstance(x, Const):
           continue
@@ -104,7 +111,7 @@ def open_bitlen(a):
 def leaf_consts(p):
   out = set()
   for a in as_poly(p).atoms():
-    if a.kind in ("min", "max", "abs"):
+    if a.kind in ("min", "max", "abs", "fdiv", "mod"):
       for x in a.args:
         xp = as_poly(x) if not isinstance(x, Const) else Poly.const(int(x.v))
         cv = xp.constval()
@@ -141,6 +148,11 @@ def collect(conds):
             consts.add(int(cv))
             consts.add(-int(cv))
   return atoms, consts
+
+
+# When set, only "the code acts where the specification forbids it" counts as a difference (code => specification): used by properties that
+# care about over-flagging alone (C07: healthy artifacts are never accused) when they share another property's predicate rows.
+ONE_SIDED = False
 
 
 def equivalent_dnf(pos_paths, spec, main=None, extra_atoms=(), spec_consts=()):
@@ -184,7 +196,7 @@ def equivalent_dnf(pos_paths, spec, main=None, extra_atoms=(), spec_consts=()):
       code = any(all(eval_cond(c, val) == pol for c, pol in path) for path in pos_paths)
       want = bool(spec(val))
       checked += 1
-      if code != want:
+      if code != want and not (ONE_SIDED and not code):
         return False, "predicates differ at %s = %d: code %s, specification %s" % (
             repr(main_atom) if main_atom is not None else "-", t, "acts" if code else "does not act", "requires it" if want else "forbids it")
   except Unknown as u:
@@ -259,12 +271,16 @@ def eval_mixed(c, val):
   return val.bools[key] == pol
 
 
-def equivalent_mixed(pos_paths, spec, mains=(), bool_atoms=(), limit=400000):
+def equivalent_mixed(pos_paths, spec, mains=(), bool_atoms=(), limit=400000, spec_consts=()):
   """Like equivalent_dnf with several varying integer atoms (mains, Polys) and boolean atoms.
   spec(val) may use val[poly] and val.truth(key) for key in bool_key(...)[0]."""
   import itertools as it
   conds = [c for path in pos_paths for c, _ in path]
   atoms, consts = collect([c for c in conds])
+  consts |= set(spec_consts)
+  # thresholds hidden behind a division or a product (x // 2 < 112 switches at 224): products of small literal pairs are grid points too
+  small = [c for c in consts if 0 < abs(c) <= 4096]
+  consts |= {a * b for a in small for b in small if abs(a * b) <= 1 << 20}
   bkeys = set(bool_atoms)
   for c in conds:
     for a in cond_atoms(c):
@@ -318,7 +334,7 @@ def equivalent_mixed(pos_paths, spec, mains=(), bool_atoms=(), limit=400000):
         code = any(all(eval_mixed(c, val) == pol for c, pol in path) for path in pos_paths)
         want = bool(spec(val))
         checked += 1
-        if code != want:
+        if code != want and not (ONE_SIDED and not code):
           return False, "predicates differ at %s, %s: code %s, specification %s" % (
               {repr(a)[:40]: v for a, v in zip(main_atoms, nums)}, {str(k)[:60]: b for k, b in zip(bkeys, bits)},
               "acts" if code else "does not act", "requires it" if want else "forbids it")
